@@ -783,6 +783,15 @@ func wireRound(o *hlib.Opts, r *hlib.Result, rng *rand.Rand, round int, cache *d
 			if strings.Contains(w, "rc=2") {
 				r.Count("wire.servfail")
 			}
+			if strings.Contains(w, "rc=1 ") {
+				r.Count("wire.formerr-for-malformed-client-subnet")
+			}
+			if c < nProfiles && profSpecs[c].ctorFails {
+				r.Count("wire.req.profile-constructor-cannot-be-built")
+			}
+			if geoFault(c) != 0 {
+				r.Count("wire.req.client-without-location")
+			}
 			if g == w {
 				nontrivial = true
 
